@@ -368,6 +368,236 @@ def mutable_default_rule(repo, rep, modnames):
 ISG_ZONES = (541, 542, 543, 551, 552, 553, 561, 562, 563, 572)
 
 
+
+
+def division_rule(repo, rep, funcs, ranges, excepted=None, families=()):
+    """no division of the property's functions has a denominator that is exactly zero at a point of the domain where the division is
+    reached.  Candidate points are the special positions of the input box: one input exactly 0, two inputs exactly 0, two inputs of one
+    family equal (lat1 = lat2, east1 = east2, ...), everything else in the middle of its range; the denominator form and the branch
+    conditions of the division are evaluated there (a witness search; exact zero of the float value, conditions all true).
+    funcs: [(module, qualname)]; ranges: {symbol: (lo, hi)} - a symbol whose range excludes 0 is never set to 0;
+    excepted: {(qualname, statement text prefix): reason} for divisions the quantifier itself keeps away from the zero (triaged by reading);
+    families: tuples of symbols that may coincide."""
+    from ..symval import DIV_EVENTS
+    from ..symcheck import _DefaultRanges
+    excepted = excepted or {}
+    rng = _DefaultRanges()
+
+    def rg(n):
+        return ranges[n] if n in ranges else rng[n]
+    for mod, q in funcs:
+        f = repo.func(mod, q)
+        key = 'R-DIV::%s::%s::denominators' % (f.module.relpath, q)
+        seen = set()
+        found = []
+        nsites = 0
+        for fn, node, den, path, ev_ in DIV_EVENTS:
+            if fn is None or getattr(fn, 'qualname', None) != q or getattr(fn.module, 'name', None) != mod:
+                continue
+            txt = stmt_text(node)[:80]
+            sig = (txt, alg.fmt(den, 1)[:200] if hasattr(alg, 'fmt') else txt)
+            if sig in seen:
+                continue
+            seen.add(sig)
+            nsites += 1
+            forms = [den] + [c for c in path if isinstance(c, Rat)]
+            ids = set()
+            for r_ in forms:
+                ids |= set(r_.atoms(deep=True))
+            syms = sorted((alg.TABLE.atoms[k].name, k) for k in ids if alg.TABLE.atoms[k].kind == 'sym' and alg.TABLE.atoms[k].name != 'pi')
+            if any('@L' in n for n, k in syms) or len(syms) > 12:
+                continue                # inside an iteration: not decided here
+            names = [n for n, k in syms]
+            mid = dict((k, (rg(n)[0] + rg(n)[1]) / 2.0 + 0.123 * (rg(n)[1] - rg(n)[0]) * ((j % 3) - 1) / 3.0) for j, (n, k) in enumerate(syms))
+            zeroable = [(n, k) for n, k in syms if rg(n)[0] <= 0 <= rg(n)[1]]
+            cands = []
+            for n, k in zeroable:
+                cands.append({k: 0.0})
+            for i1 in range(len(zeroable)):
+                for i2 in range(i1 + 1, len(zeroable)):
+                    cands.append({zeroable[i1][1]: 0.0, zeroable[i2][1]: 0.0})
+            byname = dict(syms)
+            for fam in families:
+                present = [n for n in fam if n in byname]
+                for i1 in range(len(present)):
+                    for i2 in range(i1 + 1, len(present)):
+                        cands.append({byname[present[i2]]: mid[byname[present[i1]]]})
+            for cand in cands:
+                env = dict(mid)
+                env.update(cand)
+                try:
+                    v = alg.evalf(den, env)
+                    if abs(v) != 0.0:
+                        continue
+                    if all(abs(alg.evalf(c, env)) != 0.0 for c in path if isinstance(c, Rat)) and not any(getattr(c, 'b', True) is False for c in path):
+                        found.append((node, txt, dict((n, env[k]) for n, k in syms)))
+                        break
+                except Exception:
+                    continue
+        bad = [(node, txt, pt) for node, txt, pt in found if not any(q == eq and txt.startswith(et) for (eq, et) in excepted)]
+        for node, txt, pt in found:
+            for (eq, et), why in excepted.items():
+                if q == eq and txt.startswith(et):
+                    rep.holds('R-DIV', key + '::' + txt[:40], where(f, node), 'excepted: %s' % why)
+        if not bad:
+            rep.holds('R-DIV', key, where(f, f.node), 'none of the %d division sites of %s has a denominator that is exactly zero at a special point of the domain where it is reached' % (nsites, q))
+        for node, txt, pt in bad:
+            rep.violated('R-DIV', key + '::' + txt[:40], where(f, node), '`%s` divides by a quantity that is exactly zero inside the domain: at %s the division is reached and raises ZeroDivisionError' % (
+                txt, ', '.join('%s=%.6g' % kv for kv in sorted(pt.items())[:8])), expected='a denominator that cannot vanish, or a guard', actual=txt)
+
+
+
+
+def cancellation_rule(repo, rep, funcs):
+    """a denominator spelled `1 - X**2` (resolved through local names) is computed by cancellation: where |X| reaches 1 inside the domain it
+    is exactly zero (1 - 1.0**2), the division raises, and next to it all digits are lost.  (cos(asin(X))**2 - the other spelling - never
+    is exactly zero.)  For every such division of `funcs` met by the evaluator a point of the domain with 1 - X**2 -> 0 is searched
+    (multi-start coordinate search on the evaluated form; inside an iteration the carried variables take their entry values)."""
+    from ..symval import DIV_EVENTS
+    from ..symcheck import edge_points, singular_point, _DefaultRanges
+    import ast as _ast
+
+    class _N(object):
+        pass
+    for mod, q in funcs:
+        f = repo.func(mod, q)
+        key = 'R-COND::%s::%s::cancelling-denominator' % (f.module.relpath, q)
+        hits = []
+        seen = set()
+        n = 0
+        for fn, node, den, path, ev_ in DIV_EVENTS:
+            if fn is None or getattr(fn, 'qualname', None) != q or getattr(fn.module, 'name', None) != mod:
+                continue
+            if not isinstance(node, _ast.BinOp):
+                continue
+            txt = stmt_text(node)[:80]
+            if txt in seen:
+                continue
+            seen.add(txt)
+            probe = _N()
+            probe.args = [node.right]
+            probe.lineno = node.lineno
+            from ..symcheck import _one_minus_square
+            if not _one_minus_square(probe, f):
+                continue
+            n += 1
+            # carried variables of an enclosing iteration take their entry values
+            d = den
+            sub = {}
+            for summ in ev_.loops.get(f.key, []):
+                for var, presym in summ.pre.items():
+                    ids = list(presym.atoms(deep=False))
+                    if len(ids) == 1 and ids[0] in d.atoms(deep=True) and isinstance(summ.entry.get(var), Rat):
+                        sub[ids[0]] = summ.entry[var]
+            if sub:
+                d = alg.subst(d, sub)
+            names = sorted(alg.TABLE.atoms[k].name for k in d.atoms(deep=True) if alg.TABLE.atoms[k].kind == 'sym' and alg.TABLE.atoms[k].name != 'pi')
+            if any('@L' in nm for nm in names):
+                continue
+            try:
+                sp = singular_point(d, 'sqrt', names, edge_points(names), [])
+            except Exception:
+                sp = None
+            if sp is not None:
+                hits.append((node, txt, sp[0]))
+        if not hits:
+            rep.holds('R-COND', key, where(f, f.node), 'no division of %s has a denominator of the cancelling shape 1 - X**2 that reaches zero inside the domain (%d of that shape)' % (q, n))
+        for node, txt, pt in hits:
+            rep.violated('R-COND', key, where(f, node), '`%s`: the denominator is spelled 1 - X**2 and X reaches 1 inside the domain (e.g. at %s): there it is exactly zero - ZeroDivisionError - '
+                         'and next to it it has lost its digits' % (txt, ', '.join('%s=%.6g' % kv for kv in sorted(pt.items())[:6])),
+                         expected='cos(alpha)**2 from the angle itself, or a guard for the equatorial line', actual=txt)
+
+
+def tm_division_rules(repo, rep):
+    """division rule for the projection routines (geo2grid, grid2geo, psfandgridconv) over the band of the projection, equator and central
+    meridian included"""
+    from ..symval import Evaluator, DIV_EVENTS
+    from ..symcheck import sym_ellipsoid, sym_projection
+    del DIV_EVENTS[:]
+    m = repo.module('geodepy.convert')
+    for q, names in (('psfandgridconv', ['xi1', 'eta1', 'lat', 'lon', 'cm', 'conf_lat']), ('geo2grid', ['lat', 'lon', 'zone']), ('grid2geo', ['zone', 'east', 'north'])):
+        f = m.func(q)
+        ev = Evaluator(repo, opaque=set(['alpha_coeff', 'beta_coeff', 'rect_radius']) | (set() if q == 'psfandgridconv' else {'psfandgridconv'}))
+        args = dict((p.name, Rat.sym(n)) for p, n in zip(f.params, names))
+        args['ellipsoid'] = sym_ellipsoid(ev, repo, 'ellipsoid')
+        args['prj'] = sym_projection(ev, repo, 'prj')
+        try:
+            ev.call_function(f, args)
+        except RecursionError:
+            pass
+    division_rule(repo, rep, [('geodepy.convert', 'psfandgridconv'), ('geodepy.convert', 'geo2grid'), ('geodepy.convert', 'grid2geo')],
+                  {'lat': (-80.0, 84.0), 'lon': (-180.0, 180.0), 'cm': (-177.0, 177.0), 'zone': (1.0, 60.0), 'east': (100000.0, 900000.0), 'north': (0.0, 10000000.0),
+                   'xi1': (-1.4, 1.4), 'eta1': (-0.5, 0.5), 'conf_lat': (-1.4, 1.4), 'ellipsoid.semimaj': (6.3e6, 6.4e6), 'ellipsoid.inversef': (150.0, 400.0),
+                   'prj.cmscale': (0.9, 1.1), 'prj.zonewidth': (2.0, 6.0), 'prj.falseeast': (200000.0, 600000.0), 'prj.falsenorth': (1000000.0, 10000000.0),
+                   'prj.initialcm': (-177.0, -170.0)},
+                  families=(('lon', 'cm'),))
+
+
+def zone_table_rule(repo, rep):
+    """zone number and central meridian of geo2grid on a lattice of concrete longitudes and zone arguments, for UTM and ISG - independent of
+    how the code is structured: the function is evaluated with constant arguments (integer / rational arithmetic folds exactly), the zone is
+    the second result and the central meridian is what psfandgridconv receives.  Expected: automatic zone = the 6 deg (UTM) / 2 deg (ISG)
+    strip holding the longitude, numbered 1..60 resp. <AMG zone><sub-zone>; central meridian = the middle of that strip; an explicit zone
+    keeps its own central meridian wherever the longitude is."""
+    from fractions import Fraction as F
+    from ..symval import Evaluator, Tup
+    m = repo.module('geodepy.convert')
+    mc = repo.module('geodepy.constants')
+    f = m.func('geo2grid')
+    ps = [p.name for p in f.params]
+
+    def run(lon, zone, prjname):
+        ev = Evaluator(repo, opaque={'psfandgridconv', 'alpha_coeff', 'rect_radius'})
+        prj = ev.global_value(mc, prjname)
+        ell = ev.global_value(mc, 'ans' if prjname == 'isg' else 'grs80')
+        try:
+            val = ev.call_function(f, {ps[0]: C(F(-335, 10)), ps[1]: C(lon), ps[2]: C(zone), 'ellipsoid': ell, 'prj': prj})
+        except Exception:
+            return None, None
+        cm = None
+        for caller, callee, b, node in ev.calls:
+            if callee == 'psfandgridconv' and caller == 'geo2grid':
+                cm = b.get('cm')
+        z = val.items[1] if isinstance(val, Tup) and len(val.items) > 1 else None
+        return (z.as_fraction() if isinstance(z, Rat) else None), (cm.as_fraction() if isinstance(cm, Rat) else None)
+
+    def utm(lon):
+        z = (lon + 180) // 6 + 1
+        return z, -183 + 6 * z
+
+    def isg(lon):
+        a = (lon + 180) // 6 + 1
+        sub = ((lon + 180) % 6) // 2 + 1
+        return 10 * a + sub, (a - 1) * 6 - 180 + 2 * sub - 1
+    cases = []
+    for lon in (F(-180), F(-17999, 100), F(-177), F(-174000001, 10 ** 6), F(-174), F(-171), F(-3), F(-1, 10 ** 6), F(0), F(3), F(6) - F(1, 10 ** 9),
+                F(1409, 10), F(141), F(147), F(1506, 10), F(17399, 100), F(174), F(177), F(179999999, 10 ** 6)):
+        z, cm = utm(lon)
+        cases.append(('utm', lon, 0, z, cm))
+    for lon, z in ((F(147), 55), (F(1506, 10), 55), (F(-177), 1), (F(-1795, 10), 2), (F(1795, 10), 60), (F(3), 31), (F(3), 30)):
+        cases.append(('utm', lon, z, F(z), F(-183 + 6 * z)))
+    for lon in (F(140), F(1409, 10), F(141), F(142) - F(1, 10 ** 6), F(142), F(1506, 10), F(1531, 10), F(1485, 10)):
+        z, cm = isg(lon)
+        cases.append(('isg', lon, 0, z, cm))
+    for z in ISG_ZONES:
+        a, sub = divmod(z, 10)
+        cm = (a - 1) * 6 - 180 + 2 * sub - 1
+        for dl in (F(6, 10), F(-7, 10), F(17, 10)):
+            cases.append(('isg', F(cm) + dl, z, F(z), F(cm)))
+    for prjname, lon, zarg, zwant, cmwant in cases:
+        key = 'R-TABLE::geodepy/convert.py::geo2grid::zone-cm(%s,lon=%s,zone=%s)' % (prjname, float(lon), zarg)
+        z, cm = run(lon, zarg, prjname)
+        w = where(f, f.node)
+        if z is None or cm is None:
+            rep.undecided('R-TABLE', key, w, 'zone / central meridian do not fold to numbers for these constant arguments')
+        elif z == zwant and cm == cmwant:
+            rep.holds('R-TABLE', key, w, '%s: longitude %s, zone argument %s -> zone %s, central meridian %s' % (prjname, float(lon), zarg, z, cm))
+        else:
+            rep.violated('R-TABLE', key, w, 'geo2grid(lat, %s, zone=%s, prj=%s) uses zone %s with central meridian %s; the %s the longitude lies in is zone %s with central meridian %s' % (
+                float(lon), zarg, prjname, z, float(cm), 'strip' if zarg == 0 else 'requested zone; an explicit zone keeps its own central meridian:', zwant, cmwant),
+                expected='zone %s, cm %s' % (zwant, cmwant), actual='zone %s, cm %s' % (z, cm))
+
+
 def isg_zone_rule(repo, rep, fname, zone_param, allow_zero, bind):
     """with prj = isg the function accepts exactly the ten ISG zones (and 0 = automatic where the function computes the zone) - every zone
     of the table passes every raising test, and numbers next to the table are rejected.  The raising tests are evaluated as predicates at
